@@ -516,3 +516,99 @@ def conflicts_faulty(rng):
 def run_conflicts_faulty(case, monitor):
     from . import families_c10 as F10
     return F10.run_c10(case, monitor)
+
+
+# ------------------------------------------------------------------ file replaced by a folder while the peer edits it (C02)
+def type_change_vs_edit(rng):
+    """C02 family: on one side a synchronised file X is replaced by a FOLDER of the same name (delete X, mkdir X, a
+    child created in it) while the other side writes a newer version of X; any order, any engine steps in between.
+    What the trees look like afterwards is the known defect class E-1 (type change at a synced path) and is NOT judged
+    here; judged is only that no covered version vanishes (guards COVERED_STEP / COVERED_QUIET): the newer version
+    must survive somewhere (the unchanged engine parks it as X.conflicted)."""
+    cands = [f for f in CLEAN_FLAVOURS if not f.oip[0] and not f.oip[1]]
+    fl = rng.choice(cands)
+    g = EC.Gen(rng, fl, [0, 1], 0)
+    g.allow_empty = False
+    names = []
+    for _ in range(rng.randint(1, 3)):
+        rel = "/" + g.fresh("F")
+        names.append(rel)
+        g.base.append(["create", g.abs(0, rel), g.content()])
+    g.sched.append(["drain"])
+    x = rng.choice(names)
+    a = rng.choice([0, 1])
+    b = 1 - a
+    replace = [["user", a, ["delete", g.abs(a, x)]], ["user", a, ["mkdir", g.abs(a, x)]],
+               ["user", a, ["create", g.abs(a, x + "/" + g.fresh("F")), g.content()]]]
+    edit = ["user", b, ["write", g.abs(b, x), g.content()]]
+    pos = rng.randint(0, 3)
+    ops = replace[:pos] + [edit] + replace[pos:]
+    for o in ops:
+        g.sched.append(o)
+        g.engine_noise(0.35)
+    for _ in range(rng.randint(0, 5)):
+        g.sched.append(rng.choice([["intake", 0], ["intake", 1], ["sync"]]))
+    g.sched.append(["drain"])
+    return dict(flavour=fl.key(), base=g.base, schedule=g.sched, only_guards=[6, 10],
+                hash_mult=rng.choice([1, 3, 7, 11, 2654435761]),
+                mode=dict(origin=None, check_spec=False, no_conflicted=False, cov_every_step=True))
+
+
+def run_only_guards(case, monitor):
+    res = EC.run_case(case, monitor)
+    if case.get("only_guards") and res.verdict != [] and res.verdict[1] not in case["only_guards"]:
+        res.extra["ignored_guard"] = res.verdict[1]
+        res.verdict = []
+    return res
+
+
+# ------------------------------------------------------------------ restart while a transfer is pending after a fault (C06)
+def restarts_after_fault(rng):
+    """C06 family: a file is created / edited, the engine downloads it to its temp file but the write to the peer is
+    refused (temporary error or out of space) once or twice, so the entry is punted with its temp file recorded in
+    storage; THEN the engine is stopped (its temp directory goes away) and a new engine is started over the same
+    storage; the refusals have stopped.  The pending transfer must be resumed: same outcome as without the stop."""
+    side = rng.choice([0, 1])
+    fl = rng.choice([f for f in CLEAN_FLAVOURS if not f.oip[side]])
+    g = EC.Gen(rng, fl, [side], 0)
+    g.allow_empty = False
+    g.make_base(rng.randint(0, 3))
+    g.sched.append(["drain"])
+    for _ in range(rng.randint(1, 3)):
+        if g.files(side) and rng.random() < 0.4:
+            rel = rng.choice(g.files(side))
+            g.sched.append(["user", side, ["write", g.abs(side, rel), g.content()]])
+        else:
+            g.one_op_simple(side)
+    kind = rng.choice(["temporary", "out_of_space"])
+    g.sched.append(["faults", dict(kind=kind, calls=["create", "upload"], side=1 - side, n=rng.choice([1, 2, 50]))])
+    for _ in range(rng.randint(2, 6)):
+        g.sched += [["intake", 0], ["intake", 1], ["sync"]]
+    g.sched.append(["stop"])
+    g.sched.append(["faults_off"])
+    g.sched.append(["start", "intact"])
+    g.engine_noise(0.5)
+    g.sched.append(["drain"])
+    return dict(flavour=fl.key(), base=g.base, schedule=g.sched, hash_mult=rng.choice([1, 3, 7, 11, 2654435761]),
+                mode=dict(origin=side, check_spec=True, no_conflicted=True, cov_every_step=True))
+
+
+def run_restarts_after_fault(case, monitor):
+    import cloudsync.exceptions as ex
+
+    def make_fault_plan(plan, H):
+        left = [plan["n"]]
+        cls = ex.CloudOutOfSpaceError if plan["kind"] == "out_of_space" else ex.CloudTemporaryError
+
+        def fp(side, call, idx):
+            if side == plan["side"] and call in plan["calls"] and left[0] > 0:
+                left[0] -= 1
+                return cls("injected " + plan["kind"])
+            return None
+        return fp
+    case = dict(case)
+    n_user = sum(1 for a in case["schedule"] if a[0] == "user")
+    n_steps = sum(1 for a in case["schedule"] if a[0] in ("intake", "sync"))
+    case["step_bound"] = 3 * (EC.STEP_BOUND_BASE + EC.STEP_BOUND_PER_OP * max(1, n_user)) + n_steps
+    return EC.run_case(case, monitor, storage_factory="sqlite-file", hooks=dict(make_fault_plan=make_fault_plan),
+                       oracles=("cursor", "index", "storage"))
